@@ -56,6 +56,15 @@ func OverlayForN(bt *btree.T, nlayers int) *Overlay {
 	return &Overlay{bt: bt, layers: layers}
 }
 
+// WithNlayers returns an Overlay on the same btree with nlayers empty layers.
+// It is used to install an index that was built from existing data
+// with the number of layers that the table's other indexes have
+// at the time it is installed (which may be fewer than when it was built,
+// because pending merges may have completed in between).
+func (ov *Overlay) WithNlayers(nlayers int) *Overlay {
+	return OverlayForN(ov.bt, nlayers)
+}
+
 func (ov *Overlay) Nlayers() int {
 	return len(ov.layers)
 }
